@@ -1,6 +1,7 @@
 /- C19 simulation, part C5: checkCommit (the block goes to the ledger) and checkPrepare. -/
 import NeoModel.Proofs.DbftSimC4
 import NeoModel.Proofs.DbftWitness
+import NeoModel.Proofs.DbftWitnessM
 namespace NeoModel.Dbft.Mach
 open NeoModel.Dbft
 
@@ -67,6 +68,7 @@ theorem prog_checkCommit {e : Env} {as : State} {i : Nat} {w : W} (h : Good e as
   · exact Prog.of_good h
   split
   · exact Prog.of_good h
+  rename_i hcnt
   cases hh : w.nd.header with
   | none => exact Prog.of_good h
   | some b =>
@@ -134,11 +136,11 @@ theorem prog_checkCommit {e : Env} {as : State} {i : Nat} {w : W} (h : Good e as
       have inv := inv_reachable (cfgOf e) as h.g.1
       refine ⟨_, x1.trans x2, ?_⟩
       have rn1 := g1.rn
-      have hblk : ∀ b' s, Out.block b' s ∈ Out.block b (blockWitness e w.nd b) :: w.out → ∀ t ∈ s, t.2 = true := by
+      have hblk : ∀ b' s, Out.block b' s ∈ Out.block b (blockWitness e w.nd b) :: w.out → SigsOK e s := by
         intro b' s hp
         simp only [List.mem_cons, Out.block.injEq] at hp
         rcases hp with ⟨_, rfl⟩ | hp
-        · exact blockWitness_valid e w.nd b (good_commitsSign h b hh)
+        · exact ⟨blockWitness_valid e w.nd b (good_commitsSign h b hh), checkCommit_witness_exact h.rn b hcnt⟩
         · exact h.blk b' s hp
       refine ⟨g1.g.ext x2, ?_, ?_, fun b' s hp => hblk b' s (by simpa [W.upd, W.emit] using hp), h.st, h.lt⟩
       · refine ⟨rn1.my, rn1.lens, by rw [hc2, rn1.chain]; rfl, ?_, ?_, rn1.pidx, ?_, ?_, ?_, ?_, ?_, ?_⟩
@@ -162,11 +164,11 @@ theorem prog_checkCommit {e : Env} {as : State} {i : Nat} {w : W} (h : Good e as
         exact (g1.outs pl this).ext x2
     · -- the ledger turns the block down: the machine stops for this height, nothing happens abstractly
       simp only [hok, Bool.false_eq_true, if_false]
-      have hblk : ∀ b' s, Out.block b' s ∈ Out.block b (blockWitness e w.nd b) :: w.out → ∀ t ∈ s, t.2 = true := by
+      have hblk : ∀ b' s, Out.block b' s ∈ Out.block b (blockWitness e w.nd b) :: w.out → SigsOK e s := by
         intro b' s hp
         simp only [List.mem_cons, Out.block.injEq] at hp
         rcases hp with ⟨_, rfl⟩ | hp
-        · exact blockWitness_valid e w.nd b (good_commitsSign h b hh)
+        · exact ⟨blockWitness_valid e w.nd b (good_commitsSign h b hh), checkCommit_witness_exact h.rn b hcnt⟩
         · exact h.blk b' s hp
       refine Prog.of_good ⟨h.g, ?_, ?_, fun b' s hp => hblk b' s (by simpa [W.upd, W.emit] using hp), h.st, h.lt⟩
       · have rn := h.rn
